@@ -4,19 +4,21 @@ import (
 	"fmt"
 	"go/token"
 	"go/types"
+	"sort"
 	"strings"
 
 	"golang.org/x/tools/go/ssa"
 )
 
 type callSite struct {
-	fr   *Frame
-	st   *State
-	cc   *ssa.CallCommon
-	args []*Val // including receiver for static method calls
-	recv *Val   // invoke receiver
-	pos  token.Pos
-	res  types.Type // result type (nil, single, or tuple)
+	bindings []*Val // captured variables when the callee is a closure
+	fr       *Frame
+	st       *State
+	cc       *ssa.CallCommon
+	args     []*Val // including receiver for static method calls
+	recv     *Val   // invoke receiver
+	pos      token.Pos
+	res      types.Type // result type (nil, single, or tuple)
 }
 
 func resultType(sig *types.Signature) types.Type {
@@ -30,6 +32,17 @@ func resultType(sig *types.Signature) types.Type {
 }
 
 func (x *Exec) call(fr *Frame, st *State, cc *ssa.CallCommon, res ssa.Value, p token.Pos) *Val {
+	v := x.call1(fr, st, cc, res, p)
+	if f, ok := cc.Value.(*ssa.Function); ok && v != nil {
+		if fr.callVals == nil {
+			fr.callVals = map[string][]*Val{}
+		}
+		fr.callVals[f.Name()] = append(fr.callVals[f.Name()], v)
+	}
+	return v
+}
+
+func (x *Exec) call1(fr *Frame, st *State, cc *ssa.CallCommon, res ssa.Value, p token.Pos) *Val {
 	cs := &callSite{fr: fr, st: st, cc: cc, pos: p, res: resultType(cc.Signature())}
 	for _, a := range cc.Args {
 		cs.args = append(cs.args, x.val(fr, a))
@@ -78,6 +91,7 @@ func (x *Exec) callStatic(cs *callSite, callee *ssa.Function, bindings []*Val) *
 		return x.wctxModel(cs, strings.TrimPrefix(key, "github.com/indexsupply/shovel/wctx."))
 	}
 	if c := x.w.contractOf(callee); c != nil {
+		cs.bindings = bindings
 		return x.applyContract(cs, callee, c)
 	}
 	if x.inlinable(callee) {
@@ -431,6 +445,7 @@ func (x *Exec) doAppend(cs *callSite) *Val {
 		Ite(fits, Select(oa, k),
 			Ite(inOld, Select(oa, App(SBV64, "bvadd", sOff(s), rel)), x.zeroOf(sl.Elem()))))
 	x.assume(st, T(SBool, "(forall ((k (_ BitVec 64))) (! (= (select %s k) %s) :pattern ((select %s k))))", na.S, val.S, na.S))
+	x.freshWrite(st, rbase, "append", Eq(n, bv64(0)))
 	x.setHeap(st, sl.Elem(), Store(h, rbase, na))
 	return &Val{T: r, Ty: st0}
 }
@@ -460,6 +475,7 @@ func (x *Exec) doCopy(cs *callSite) *Val {
 	rel := App(SBV64, "bvsub", k, sOff(dst))
 	val := Ite(App(SBool, "bvult", rel, cnt), srcAt(rel), Select(oa, k))
 	x.assume(st, T(SBool, "(forall ((k (_ BitVec 64))) (! (= (select %s k) %s) :pattern ((select %s k))))", na.S, val.S, na.S))
+	x.freshWrite(st, sBase(dst), "copy", Eq(cnt, bv64(0)))
 	x.setHeap(st, sl.Elem(), Ite(Eq(cnt, bv64(0)), h, Store(h, sBase(dst), na)))
 	return &Val{T: cnt, Ty: types.Typ[types.Int]}
 }
@@ -546,6 +562,18 @@ func (x *Exec) applyContract(cs *callSite, callee *ssa.Function, c *FuncContract
 		if i < len(cs.args) {
 			vars[p.Name()] = x.cvOfVal(cs.args[i])
 			vars[p.Name()].Ty = p.Type()
+		}
+	}
+	// captured variables of a closure callee: names mean the variables' current values
+	for i, fv := range callee.FreeVars {
+		if i >= len(cs.bindings) || cs.bindings[i] == nil {
+			continue
+		}
+		cv := x.cvOfVal(cs.bindings[i])
+		if pt, ok := fv.Type().Underlying().(*types.Pointer); ok {
+			if loc := x.locOfCV(cv, pt.Elem()); loc != nil {
+				vars[fv.Name()] = &CV{T: x.load(st, loc), Ty: pt.Elem(), Addr: loc, Lazy: true}
+			}
 		}
 	}
 	pkg := callee.Pkg
@@ -635,6 +663,21 @@ func (x *Exec) applyContract(cs *callSite, callee *ssa.Function, c *FuncContract
 		x.havocExternal(cs, "call")
 	} else {
 		x.havocMods(cs.fr, st, mods, "call")
+	}
+	if c.Opts["writes"] == "fresh" {
+		// proved on the callee (fresh-write obligations): objects that exist
+		// now are left as they are
+		var hs []string
+		for h := range st.heaps {
+			hs = append(hs, h)
+		}
+		sort.Strings(hs)
+		for _, h := range hs {
+			if oh, ok := old.heaps[h]; ok && oh.S != st.heaps[h].S && strings.HasPrefix(string(st.heaps[h].Sort), "(Array Int ") {
+				x.assume(st, T(SBool, "(forall ((b Int)) (! (=> (select %s b) (= (select %s b) (select %s b))) :pattern ((select %s b))))",
+					old.alloc.S, st.heaps[h].S, oh.S, st.heaps[h].S))
+			}
+		}
 	}
 	res := x.freshResult(st, "res_"+callee.Name(), cs.res)
 	// postconditions
@@ -964,6 +1007,12 @@ func (x *Exec) modOfCall(m *modSet, cc *ssa.CallCommon) {
 		// dynamic
 		if isContextCancel(cc.Value) {
 			return
+		}
+		if u, ok := cc.Value.(*ssa.UnOp); ok {
+			if target := staticClosureTarget(u); target != nil {
+				x.modOfFunc(m, target)
+				return
+			}
 		}
 		if n := dynName(cc.Value); n != "" {
 			m.ghost["called_"+n] = true
